@@ -10,10 +10,13 @@ package spdxlicenses
 
 //@ fn ActiveLen() int
 //@ fn ActiveAt(k int) string
+//@ fn ActiveSeq() seq[string]
 //@ fn DeprecatedLen() int
 //@ fn DeprecatedAt(k int) string
+//@ fn DeprecatedSeq() seq[string]
 //@ fn ExceptionLen() int
 //@ fn ExceptionAt(k int) string
+//@ fn ExceptionSeq() seq[string]
 //@ fn RangeFamilies() int
 //@ fn RangeVersions(i int) int
 //@ fn RangeIds(i int, j int) int
@@ -23,18 +26,21 @@ package spdxlicenses
 //@   trusted ground-eval: the body is one composite literal of string constants (shape checked); the table is the abstract constant ActiveAt
 //@   ensures fresh(result) && len(result) == ActiveLen() && cap(result) == len(result)
 //@   ensures forall k :: 0 <= k && k < len(result) ==> result[k] == ActiveAt(k)
+//@   ensures elems(result) == ActiveSeq()
 //@ end
 
 //@ func spdxlicenses.GetDeprecated
 //@   trusted ground-eval: the body is one composite literal of string constants (shape checked); the table is the abstract constant DeprecatedAt
 //@   ensures fresh(result) && len(result) == DeprecatedLen() && cap(result) == len(result)
 //@   ensures forall k :: 0 <= k && k < len(result) ==> result[k] == DeprecatedAt(k)
+//@   ensures elems(result) == DeprecatedSeq()
 //@ end
 
 //@ func spdxlicenses.GetExceptions
 //@   trusted ground-eval: the body is one composite literal of string constants (shape checked); the table is the abstract constant ExceptionAt
 //@   ensures fresh(result) && len(result) == ExceptionLen() && cap(result) == len(result)
 //@   ensures forall k :: 0 <= k && k < len(result) ==> result[k] == ExceptionAt(k)
+//@   ensures elems(result) == ExceptionSeq()
 //@ end
 
 //@ func spdxlicenses.LicenseRanges
